@@ -187,12 +187,20 @@ def check_eps_col(acc, job, override=None):
 # trace monitor
 # ---------------------------------------------------------------------------
 def loop_lines(m):
-    """line numbers of the first statement of each bisection loop body, found by source text"""
-    import inspect
+    """line numbers of the first statement of each bisection loop body, found in the module's source text
+    (independent of decorators wrapped around the functions)"""
+    src = open(m.__file__).read().splitlines()
     out = {}
     for fn, marker in (('cdp_delta', 'alpha=(amin+amax)/2'), ('cdp_eps', 'eps=(epsmin+epsmax)/2'), ('cdp_rho', 'rho=(rhomin+rhomax)/2')):
-        src, start = inspect.getsourcelines(getattr(m, fn))
-        hits = [start + i for i, l in enumerate(src) if l.strip().replace(' ', '') == marker]
+        defs = [i for i, l in enumerate(src) if l.replace(' ', '').startswith('def%s(' % fn)]
+        if len(defs) != 1:
+            raise RuntimeError('trace monitor: %d definitions of %s' % (len(defs), fn))
+        hits = []
+        for i in range(defs[0] + 1, len(src)):
+            if src[i].startswith('def ') or src[i].startswith('@'):
+                break
+            if src[i].strip().replace(' ', '') == marker:
+                hits.append(i + 1)
         if len(hits) != 1:
             raise RuntimeError('trace monitor: cannot locate the loop of %s (marker %r)' % (fn, marker))
         out[fn] = hits[0]
@@ -201,8 +209,8 @@ def loop_lines(m):
 
 def monitored(m, fn, args, acc, case):
     lines = loop_lines(m)
-    code = getattr(m, fn).__code__
     target_line = lines[fn]
+    mfile = os.path.realpath(m.__file__)
     st = {'n': 0, 'prev': None, 'init': None, 'bad': []}
 
     def inv(loc):
@@ -238,8 +246,12 @@ def monitored(m, fn, args, acc, case):
             st['prev'] = (lo, hi)
         return local
 
+    depth = {'n': 0}
+
     def tracer(frame, event, arg):
-        if event == 'call' and frame.f_code is code and frame.f_back is not None and frame.f_back.f_code.co_name == 'monitored':
+        # the outermost activation of the function body itself (whatever wrappers are around it)
+        if event == 'call' and frame.f_code.co_name == fn and os.path.realpath(frame.f_code.co_filename) == mfile and depth['n'] == 0:
+            depth['n'] += 1
             return local
         return None
     old = sys.gettrace()
